@@ -16,15 +16,19 @@ SPEC = "fun i o => C04_spec (fst i) o"
 RES = [1, 2, 3, 4, 5, 100, 191, 192, 193, 200, 480, 500, 1000]
 
 
-def make_case(R, groups, wf=True, header="ExpertSingle"):
+def make_case(R, groups, wf=True, header="ExpertSingle", layout=None, spell=None):
     lines = ["%d = N %d %d" % (g["tick"], i, l) for g in groups for i, l in g["lines"]]
-    text = chart_text(res=R, tracks=[(header, lines)])
+    if spell is not None:
+        import random as _random
+        _r = _random.Random(spell)
+        lines = [(ig.exotic_line(_r, l) if _r.random() < 0.6 else ig.zero_pad(_r, l)) if _r.random() < 0.5 else l for l in lines]
+    text = laid_out(chart_text(res=R, tracks=[(header, lines)]), layout)
     ch, exc, out = parse_case(text)
     th = ig.thr(R)
     ticks = [g["tick"] for g in groups]
     near = any(th - 1 <= b - a <= th + 1 for a, b in zip(ticks, ticks[1:]))
     flags = any(g["tap"] or g["forced"] for g in groups)
-    return dict(case=dict(R=R, groups=groups, wf=wf, text=text, header=header),
+    return dict(case=dict(R=R, groups=groups, wf=wf, text=text, header=header, layout=layout, spell=spell),
                 in_term="((%s, %s, %s), %s)" % (coq_bool(wf), coq_Z(R), coq_list("(%s, %s)" % (coq_bool(g["tap"]), coq_bool(g["forced"])) for g in groups), parse_in_term(text)),
                 out_term=out, nontrivial=near or flags,
                 tags=["R%%3=%d" % (R % 3), "near_threshold" if near else "far", "flags" if flags else "noflags", "impl_error" if exc is not None else "impl_ok"],
@@ -62,9 +66,12 @@ def gen(rng, R):
         tap = rng.random() < 0.25
         forced = gi > 0 and rng.random() < 0.45
         if forced:
-            lines.insert(rng.randint(0, len(lines)), (5, 0))
+            # (a flag line may be written more than once in its tick: the note is forced all the same)
+            for _ in range(rng.choice([1, 1, 1, 2, 3])):
+                lines.insert(rng.randint(0, len(lines)), (5, 0))
         if tap:
-            lines.insert(rng.randint(0, len(lines)), (6, 0))
+            for _ in range(rng.choice([1, 1, 1, 2])):
+                lines.insert(rng.randint(0, len(lines)), (6, 0))
         groups.append(dict(tick=t, lines=lines, tap=tap, forced=forced))
     return groups
 
@@ -73,20 +80,20 @@ def cases(ctx, n):
     rng = ctx["rng"]
     out = []
     for c in load_corpus("C04"):
-        out.append(make_case(c["R"], c["groups"], c.get("wf", True), c.get("header", "ExpertSingle")))
+        out.append(make_case(c["R"], c["groups"], c.get("wf", True), c.get("header", "ExpertSingle"), c.get("layout"), c.get("spell")))
     # forced first note: documented rejection (malformed stream, model = implementation only)
     out.append(make_case(192, [dict(tick=0, lines=[(0, 0), (5, 0)], tap=False, forced=True), dict(tick=10, lines=[(1, 0)], tap=False, forced=False)], wf=False))
     for R in RES:
         out.append(make_case(R, gen(rng, R)))
     while len(out) < n:
         R = rng.choice(RES + [rng.randint(1, 5000)])
-        out.append(make_case(R, gen(rng, R), header=pick_header(rng, 0.6)))
+        out.append(make_case(R, gen(rng, R), header=pick_header(rng, 0.6), layout=pick_layout(rng), spell=rng.randrange(10 ** 9) if rng.random() < 0.25 else None))
     return out
 
 
 def run(ctx, only=None):
     if only:
-        cs = [make_case(c["R"], c["groups"], c.get("wf", True), c.get("header", "ExpertSingle")) for c in only if c]
+        cs = [make_case(c["R"], c["groups"], c.get("wf", True), c.get("header", "ExpertSingle"), c.get("layout"), c.get("spell")) for c in only if c]
     else:
         cs = cases(ctx, 260 if ctx["tier"] == "quick" else 8000)
     return run_cases("C04", cs, IN_TYPE, PARSE_OUT, VERDICT, SPEC, shard_size=30)
